@@ -128,13 +128,17 @@ PeerClose(p) ==
   /\ UNCHANGED <<st, held, pl, rq, inbox, readable, ops, nextMsg, sent, got, lost>>
 \* the application closes the connection (nng_pipe_close): pull0_pipe_close; a message still held for it is freed
 PipeClose(p) ==
-  /\ st[p] = "up" /\ <<"recv_cb", p>> \notin pending
+  /\ st[p] = "up"
   /\ st' = [st EXCEPT ![p] = "gone"]
   /\ pl' = Remove(pl, p) /\ readable' = (Remove(pl, p) # <<>>)
+  \* a completed transport receive whose callback has not run yet: the reaper waits for that callback (pipe_stop), which finds
+  \* the pipe closed and frees the message instead of holding it for the application
   /\ lost' = lost \cup (IF held[p] # 0 THEN {held[p]} ELSE {}) \cup SeqSet(inbox[p])
+                   \cup (IF <<"recv_cb", p>> \in pending /\ rdata[p] \notin {0, Err} THEN {rdata[p]} ELSE {})
   /\ held' = [held EXCEPT ![p] = 0] /\ inbox' = [inbox EXCEPT ![p] = <<>>] /\ rcv' = [rcv EXCEPT ![p] = FALSE]
+  /\ pending' = pending \ {<<"recv_cb", p>>} /\ rdata' = [rdata EXCEPT ![p] = 0]
   /\ lastAct' = [a |-> "pipe_close", p |-> p]
-  /\ UNCHANGED <<rq, rdata, pclosed, pending, ops, nextMsg, sent, got>>
+  /\ UNCHANGED <<rq, pclosed, ops, nextMsg, sent, got>>
 \* pull0_recv_cb
 RunRecvCb(p) ==
   /\ <<"recv_cb", p>> \in pending
